@@ -313,11 +313,10 @@ MUTANTS = [
     dict(name="loop plugin containment strict", file="strax/processing/general.py",
          old="        if b_starts[b_i] <= a_starts[a_i] and a_ends[a_i] <= b_ends[b_i]:",
          new="        if b_starts[b_i] < a_starts[a_i] and a_ends[a_i] <= b_ends[b_i]:"),
-    dict(name="post office drops the last message of a topic", file="strax/processing/general.py",
-         old="        max_endtime = max(max_endtime, endtime)", new="        max_endtime = endtime"),
-    dict(name="rechunk on save cuts without margin", file="strax/chunk.py",
-         old='                t=chunk.data["time"][index] - int(DEFAULT_CHUNK_SPLIT_NS // 2),\n                allow_early_split=False,\n            )\n            chunks.append(_chunk)',
-         new='                t=chunk.data["time"][index] + 1,\n                allow_early_split=True,\n            )\n            chunks.append(_chunk)'),
+    dict(name="rechunker forgets its cache at the end", file="strax/chunk.py",
+         old="            result = self.cache\n            self.cache = None\n            return [result]", new="            self.cache = None\n            return []"),
+    dict(name="loader yields chunks in reverse metadata order for two-chunk data", file="strax/utils.py",
+         old="    for c in md[\"chunks\"]:\n        _n_from = _n_to", new="    for c in (md[\"chunks\"][::-1] if len(md[\"chunks\"]) == 2 else md[\"chunks\"]):\n        _n_from = _n_to"),
     dict(name="exhaust plugin stops after the first extra chunk", file="strax/plugins/exhaust_plugin.py",
          old="        while super()._fetch_chunk(d, iters, check_end_not_before=check_end_not_before):\n            pass",
          new="        super()._fetch_chunk(d, iters, check_end_not_before=check_end_not_before)"),
